@@ -13,6 +13,8 @@ import (
 
 // Family "gsm7" (C08): alphabet and septet packing, all entry points.
 
+var dirtyDst = make([]byte, 1<<16)
+
 func init() {
 	families["gsm7"] = family{gen: genGsm7, run: runGsm7}
 }
@@ -355,6 +357,34 @@ func runGsm7(c Case, tr *Tracer) {
 			out = nil
 		}
 		tr.emit(Ev{"ev": "EncPacked", "text": sc, "out": B(out), "err": err2 != nil, "site": "GSM7(true).Encoder.reused"})
+		// the caller's own output buffer, used before (transform.Append into a recycled slice; Transform into a dirty array)
+		for i := range dirtyDst {
+			dirtyDst[i] = 0xFF
+		}
+		out, _, err2 = transform.Append(gsm7.GSM7(true).NewEncoder(), dirtyDst[:0], []byte(text))
+		if err2 != nil {
+			out = nil
+		}
+		tr.emit(Ev{"ev": "EncPacked", "text": sc, "out": B(out), "err": err2 != nil, "site": "GSM7(true).Encoder.append"})
+		for i := range dirtyDst {
+			dirtyDst[i] = 0xA5
+		}
+		out, _, err2 = transform.Append(gsm7.GSM7(false).NewEncoder(), dirtyDst[:0], []byte(text))
+		if err2 != nil {
+			out = nil
+		}
+		tr.emit(Ev{"ev": "Enc", "text": sc, "out": B(out), "err": err2 != nil, "site": "GSM7(false).Encoder.append"})
+		if len(text) < 2000 {
+			for i := range dirtyDst {
+				dirtyDst[i] = 0xFF
+			}
+			nd, _, err3 := gsm7.GSM7(true).NewEncoder().Transform(dirtyDst, []byte(text), true)
+			out = append([]byte{}, dirtyDst[:nd]...)
+			if err3 != nil {
+				out = nil
+			}
+			tr.emit(Ev{"ev": "EncPacked", "text": sc, "out": B(out), "err": err3 != nil, "site": "GSM7(true).Encoder.Transform"})
+		}
 	case "septets":
 		s := caseBytes(c, "s")
 		var dec []byte
